@@ -117,7 +117,7 @@ PROPS = {
 }
 PROPS["C19"] = dict(level="proof", streams=[("P1", 26000), ("M1", 2000),
                                                 # the per-protocol streams carry their own malformed/boundary inputs (a panic is a reply the model never gives)
-                                                ("E1", 600), ("V1", 800), ("D1", 800), ("T1", 600), ("Q1", 600), ("H1", 500), ("X1", 600), ("B1", 300)], configs_quick=Q4, configs_thorough=T4, thorough_mult=1,
+                                                ("E1", 600), ("V1", 800), ("D1", 800), ("T1", 600), ("Q1", 600), ("H1", 500), ("X1", 600), ("B1", 300), ("L1", 800), ("C1", 400)], configs_quick=Q4, configs_thorough=T4, thorough_mult=1,
                     theorems={"Voi.Props.TotalInv": TOTAL_THMS})
 PROPS["C08"] = dict(level="other", gens=["go2ir", "ct"], custom="ct",
                     technique="regenerated model (go2ir): symbolic execution of the real SSA with every secret symbolic; outcome table and IR leak-freedom "
